@@ -39,10 +39,52 @@ pub fn generate(seed: u64, idx: u64) -> Scenario {
     }
     let n = rng.range(1, 40);
     let mut steps = 0;
+    if rng.chance(60) {
+        // a program written from nothing, keystroke by keystroke, then partly erased again
+        let uri = uris[0].clone();
+        s.close(&uri);
+        s.open(&uri, "");
+        let size = rng.range(1, 3);
+        let program = gen::valid_program(&mut rng, size);
+        let mut cur = String::new();
+        let pieces = gen::type_from_scratch(&mut rng, &program, 400);
+        for piece in &pieces {
+            let e = gen::to_lsp_edit(&cur, cur.len()..cur.len(), piece.clone());
+            gen::apply(&mut cur, &e);
+            s.change(&uri, vec![e]);
+        }
+        let erase = rng.below(30);
+        for _ in 0..erase {
+            if cur.is_empty() {
+                break;
+            }
+            let a = gen::snap(&cur, cur.len() - 1);
+            let e = gen::to_lsp_edit(&cur, a..cur.len(), String::new());
+            gen::apply(&mut cur, &e);
+            s.change(&uri, vec![e]);
+        }
+        steps = n; // the typing is the session
+    }
     while steps < n {
         let uri = rng.pick(&uris).clone();
         let text = s.text(&uri).cloned().unwrap_or_default();
         match (family, rng.below(10)) {
+            (_, 9) => {
+                // edits in the look-ahead region behind a statement boundary
+                let mut cur = text.clone();
+                let k = *rng.pick(&[1usize, 1, 2]);
+                let mut edits = vec![];
+                for _ in 0..k {
+                    let (r, repl) = gen::boundary_edit(&mut rng, &cur);
+                    let a = gen::snap(&cur, r.start);
+                    let b = gen::snap(&cur, r.end).max(a);
+                    let e = gen::to_lsp_edit(&cur, a..b, repl);
+                    gen::apply(&mut cur, &e);
+                    edits.push(e);
+                }
+                s.change(&uri, edits);
+                steps += 1;
+            }
             (0..=3, 0..=7) | (4..=9, 0..=3) => {
                 // structural edits, singly or in batches
                 let mut cur = text.clone();
